@@ -330,8 +330,9 @@ def stepLine (d : D) (line : String) : D × String :=
       if d.mode != .open_ && d.mode != .wedged then (d, "dead")
       else if d.cancelHung then (d, "started=locked")
       else if d.view.blockReader && d.view.blockReq == some (sha256d h) then
-        -- the streaming handleBlock is blocked in ReadCloser.Read holding its mutex: Close() waits
-        ({ d with cancelHung := true }, "started=hung")
+        -- in-progress cancel: the node closes the connection, handleBlock fails, run() ends
+        let (s', r) := cancelBlock d.view (sha256d h)
+        ({ d with mode := .closed, base := s', view := s', needAlt := none }, s!"started={b2s r} closed=1 run=returned")
       else
         let (s', r) := cancelBlock d.base (sha256d h)
         let v := (cancelBlock d.view (sha256d h)).1
